@@ -56,7 +56,7 @@ COMPONENTS = {
 
 TRAIN_OPS = ["kmeans_fit", "gmm_ml_fit", "gmm_map_fit", "isv_fit", "jfa_fit", "iv_fit",
              "isv_fit_array", "jfa_fit_array", "wccn_fit", "whitening_fit"]
-USE_OPS = ["ubm_acc_stats", "ubm_transform", "ubm_ll", "km_use", "km_varw", "isv_enroll",
+USE_OPS = ["parallel_ubm_stats", "ubm_acc_stats", "ubm_transform", "ubm_ll", "km_use", "km_varw", "isv_enroll",
            "jfa_enroll", "isv_enroll_array", "jfa_enroll_array", "isv_score", "jfa_score",
            "isv_score_array", "jfa_score_array", "isv_estimate", "jfa_estimate", "isv_transform",
            "iv_project", "iv_transform", "linear_scoring", "stats_add", "stats_iadd",
@@ -157,7 +157,7 @@ def gen_case(rng, tier):
                   "variances": L(sig6(variances * rs.uniform(0.7, 1.4, size=(c, d)))),
                   "weights": L(gen_simplex(rng, c))},
         "X0": L(X0), "X1": L(X1), "y0": y0, "ys": ys, "stat_rows": stat_rows,
-        "xlayout": rng.choice(["C", "C", "F", "strided", "transposed"]),
+        "xlayout": rng.choice(["C", "C", "F", "strided", "transposed", "f32"]),
         "xbig": xbig,
         # a prior component far from all data (no evidence reaches it during adaptation)
         "prior_far": rng.random() < 0.3,
@@ -185,6 +185,8 @@ def _layout(case, X):
         return big[::2, :-1]
     if lay == "transposed":  # a (features, samples) store handed over as .T
         return np.ascontiguousarray(X.T).T
+    if lay == "f32":
+        return X.astype(np.float32)
     return X
 
 
@@ -431,6 +433,17 @@ def _call(pool, o, rec, label):
             res = _lin_fit(t, Xw, ylab, name)
         return [np.array(res.weights), np.array(res.input_subtract)], res
     # ---------------- uses ----------------
+    if name == "parallel_ubm_stats":
+        # several caller threads score against the caller's UBM at the same time
+        import dask
+        from ..sim import gen_sched as _gs
+        blocks = [b for b in np.array_split(X, 3) if len(b)]
+        sch = dict(o.get("sched") or {"policy": "random", "workers": 3, "stall_p": 0.5,
+                                      "seed": o["np_seed"]}, mode="threads")
+
+        def go():
+            return dask.compute(*[dask.delayed(pool.ubm.acc_stats)(b) for b in blocks])
+        return list(rec.run(sch, go, np_seed=o["np_seed"], label=label)), None
     if name == "ubm_acc_stats":
         return pool.ubm.acc_stats(X), None
     if name == "ubm_transform":
